@@ -867,7 +867,7 @@ Section NullBelow.
   Hypothesis nan_is_nan : @nisnan F NF nnan = true.
 
   Lemma count_valid_le_length (xs : list T) : count_valid xs <= length xs.
-  Proof. pose proof (count_valid_plus_none xs). lia. Qed.
+  Proof. clear nan_is_nan. pose proof (count_valid_plus_none xs). lia. Qed.
 
   Theorem null_below_single (mp : nat) (xs : list T) :
     (count_valid xs = 0 -> vsum xs = None /\ vmean tof xs = nnan /\ vmin xs = None /\ vmax xs = None /\
@@ -928,7 +928,7 @@ Section NullBelow.
   Lemma cov_count (xs : list T) (ys : list T2) s :
     fst (fst (fst (fold_left (cov_step tof) (combine xs ys) s))) = fst (fst (fst s)) + npairs xs ys.
   Proof.
-    unfold npairs, complete_pairs. generalize (combine xs ys) as l. intros l. revert s.
+    clear nan_is_nan. unfold npairs, complete_pairs. generalize (combine xs ys) as l. intros l. revert s.
     induction l as [|p l IH]; intros s; cbn [fold_left filter]; [cbn; lia|].
     rewrite IH. unfold cov_step. destruct s as [[[n sa] sb] sab].
     destruct (not_none (fst p) && not_none (snd p)); cbn [fst snd length]; lia.
@@ -937,7 +937,7 @@ Section NullBelow.
     fst (fst (fst (fst (fst (fold_left (corr_step tof) (combine xs ys) s)))))
     = fst (fst (fst (fst (fst s)))) + npairs xs ys.
   Proof.
-    unfold npairs, complete_pairs. generalize (combine xs ys) as l. intros l. revert s.
+    clear nan_is_nan. unfold npairs, complete_pairs. generalize (combine xs ys) as l. intros l. revert s.
     induction l as [|p l IH]; intros s; cbn [fold_left filter]; [cbn; lia|].
     rewrite IH. unfold corr_step. destruct s as [[[[[n sa] s2a] sb] s2b] sab].
     destruct (not_none (fst p) && not_none (snd p)); cbn [fst snd length]; lia.
@@ -946,7 +946,7 @@ Section NullBelow.
   Theorem null_below_two (mp : nat) (xs : list T) (ys : list T2) :
     npairs xs ys < Nat.max mp 2 -> vcov tof mp xs ys = nnan /\ vcorr_pearson tof mp xs ys = nnan.
   Proof.
-    intros H. split.
+    clear nan_is_nan. intros H. split.
     - unfold vcov. pose proof (cov_count xs ys (0, nzero, nzero, nzero)) as C.
       destruct (fold_left (cov_step tof) (combine xs ys) (0, nzero, nzero, nzero)) as [[[n sa] sb] sab].
       cbn [fst snd] in C. replace (Nat.max mp 2 <=? n) with false by (symmetry; apply Nat.leb_gt; lia). reflexivity.
